@@ -123,8 +123,8 @@ class SetOf(T):
 
 class DictOf(T):
     """A dict: key sequence (duplicate free, insertion order) + value map."""
-    def __init__(self, key: T, value: T, distinct: bool = False) -> None:
-        self.key, self.value, self.distinct = key, value, distinct
+    def __init__(self, key: T, value: T, distinct: bool = False, total: bool = False) -> None:
+        self.key, self.value, self.distinct, self.total = key, value, distinct, total
 
     def __repr__(self) -> str:
         return f"DictOf({self.key!r},{self.value!r})"
